@@ -229,3 +229,95 @@ func Harness_C20_Query() {
 	}
 	vCover("query-done")
 }
+
+// combinations of filters on a pattern history whose entries have different topics
+func Harness_C20_QueryCombined() {
+	b, err := newBroker(vNopLog{}, false, true, false, nil, []*TopicEventHistoryConfig{{Topic: "h.", MatchPolicy: wamp.MatchPrefix, Limit: 3}})
+	vAssert("broker-created", err == nil)
+	pub := vNewSess(81, nil, nil, 32)
+	lk := b.subLookup(&wamp.Invocation{Request: 1, Arguments: wamp.List{wamp.URI("h."), wamp.Dict{"match": wamp.MatchPrefix}}})
+	ly, isY := lk.(*wamp.Yield)
+	vAssert("lookup", isY && len(ly.Arguments) == 1)
+	if !isY || len(ly.Arguments) != 1 {
+		return
+	}
+	subID, _ := wamp.AsID(ly.Arguments[0])
+	vAssert("history-subscription-exists", subID != 0)
+	topics := []wamp.URI{"h.a", "h.b"}
+	var ids []wamp.ID
+	var tix [3]int
+	for k := 0; k < 3; k++ {
+		tix[k] = vChoice("topic", 2)
+		b.publish(pub.s, &wamp.Publish{Request: wamp.ID(100 + k), Topic: topics[tix[k]], Options: wamp.Dict{"acknowledge": true}, Arguments: wamp.List{int64(k)}})
+		vSyncBroker(b)
+		for _, m := range pub.vDrain() {
+			if p, ok := m.(*wamp.Published); ok {
+				ids = append(ids, p.Publication)
+			}
+		}
+	}
+	vAssert("three-published", len(ids) == 3)
+	kw := wamp.Dict{}
+	lo, hi := 0, 3
+	switch vChoice("bound", 5) {
+	case 1:
+		i := vChoice("from", 3)
+		kw["from_publication"] = ids[i]
+		lo = i
+	case 2:
+		i := vChoice("after", 3)
+		kw["after_publication"] = ids[i]
+		lo = i + 1
+	case 3:
+		i := vChoice("before", 3)
+		kw["before_publication"] = ids[i]
+		hi = i
+	case 4:
+		i := vChoice("until", 3)
+		kw["until_publication"] = ids[i]
+		hi = i + 1
+	}
+	topicFilter := vChoice("topic.filter", 3) // none, h.a, h.b
+	if topicFilter > 0 {
+		kw["topic"] = string(topics[topicFilter-1])
+	}
+	limit := vChoice("limit", 3) // none, 1, 2
+	if limit > 0 {
+		kw["limit"] = limit
+	}
+	reverse := vBool("reverse")
+	if reverse {
+		kw["reverse"] = true
+	}
+	res := b.subEventHistory(&wamp.Invocation{Request: 2, Arguments: wamp.List{subID}, ArgumentsKw: kw})
+	evs, ok := vHistEvents(res)
+	vAssert("query-yields", ok)
+	if !ok {
+		return
+	}
+	var want []int
+	for i := lo; i < hi; i++ {
+		if topicFilter == 0 || tix[i] == topicFilter-1 {
+			want = append(want, i)
+		}
+	}
+	if limit > 0 && len(want) > limit {
+		want = want[len(want)-limit:]
+	}
+	if reverse {
+		for i, j := 0, len(want)-1; i < j; i, j = i+1, j-1 {
+			want[i], want[j] = want[j], want[i]
+		}
+	}
+	vAssert("combined-query-result-length", len(evs) == len(want))
+	if len(evs) == len(want) {
+		for i, w := range want {
+			se, ok := vStoredEventOf(evs[i])
+			vAssert("combined-query-entry", ok && se.Publication == ids[w])
+		}
+	}
+	if topicFilter > 0 && len(kw) >= 2 {
+		vCover("topic-with-other-filter")
+	}
+	vCover("combined-query-done")
+}
